@@ -1,0 +1,110 @@
+//go:build verif
+
+package verifapi
+
+import (
+	"context"
+	"fmt"
+	"net"
+	"time"
+
+	fs_db "github.com/glebziz/fs_db"
+	"github.com/glebziz/fs_db/config"
+	"github.com/glebziz/fs_db/internal/app"
+	"github.com/glebziz/fs_db/internal/di"
+	"github.com/glebziz/fs_db/internal/verifhook"
+	"github.com/glebziz/fs_db/pkg/external"
+	"github.com/glebziz/fs_db/pkg/inline"
+	inlineDb "github.com/glebziz/fs_db/pkg/inline/db"
+)
+
+// SetHandlers registers the pause-point / mutation handlers (see internal/verifhook).
+func SetHandlers(at func(point string), mut func(kind, arg string)) {
+	verifhook.SetHandlers(at, mut)
+}
+
+// Handle is an open database (inline, or a server plus a gRPC client) with
+// access to the pieces the harness needs to drive deterministically.
+type Handle struct {
+	DB fs_db.DB
+
+	c      *di.Container
+	stop   func() error
+	cancel context.CancelFunc
+	done   chan error
+}
+
+// OpenInline opens the inline client.
+func OpenInline(ctx context.Context, cfg config.Config) (*Handle, error) {
+	d, err := inline.Open(ctx, cfg)
+	if err != nil {
+		return nil, err
+	}
+
+	return &Handle{DB: d, c: inlineDb.VerifContainer(d)}, nil
+}
+
+// OpenServer starts the gRPC server application on cfg.Port in this process
+// and connects the external client to it.
+func OpenServer(ctx context.Context, cfg config.Config) (*Handle, error) {
+	a, err := app.New(ctx, cfg)
+	if err != nil {
+		return nil, err
+	}
+
+	runCtx, cancel := context.WithCancel(ctx)
+	done := make(chan error, 1)
+	go func() { done <- a.Run(runCtx) }()
+
+	addr := fmt.Sprintf("127.0.0.1:%d", cfg.Port)
+	deadline := time.Now().Add(5 * time.Second) //nolint:mnd
+	for {
+		conn, dErr := net.DialTimeout("tcp", addr, 100*time.Millisecond) //nolint:mnd
+		if dErr == nil {
+			conn.Close()
+			break
+		}
+		select {
+		case rErr := <-done:
+			cancel()
+			return nil, fmt.Errorf("server exited: %w", rErr)
+		default:
+		}
+		if time.Now().After(deadline) {
+			cancel()
+			return nil, fmt.Errorf("server did not start listening: %w", dErr)
+		}
+		time.Sleep(5 * time.Millisecond) //nolint:mnd
+	}
+
+	d, err := external.Open(ctx, addr)
+	if err != nil {
+		cancel()
+		return nil, err
+	}
+
+	return &Handle{DB: d, c: a.VerifContainer(), stop: a.Stop, cancel: cancel, done: done}, nil
+}
+
+// GC runs one collection pass (cleaner.DeleteOld) synchronously.
+func (h *Handle) GC(ctx context.Context) error {
+	return h.c.Cleaner().DeleteOld(ctx)
+}
+
+// Container exposes the DI container.
+func (h *Handle) Container() *di.Container { return h.c }
+
+// Close closes the client and, for a server handle, stops the server.
+func (h *Handle) Close() error {
+	err := h.DB.Close()
+	if h.cancel != nil {
+		h.cancel()
+		<-h.done
+		sErr := h.stop()
+		if err == nil {
+			err = sErr
+		}
+	}
+
+	return err
+}
